@@ -8,6 +8,7 @@ CONSTANT Mut
 MCSizes3 == <<1, 2, 1>>
 MCSizes5 == <<1, 2, 1, 3, 1>>
 MCSizes7 == <<1, 2, 1, 3, 1, 2, 2>>
+MCSizes9 == <<1, 2, 1, 2, 3, 1, 2, 1, 2>>     \* long enough for a four-leaf sub tree that does not start at byte 0
 
 VARIABLES rep, wl, hist
 mvars == <<rep, wl, hist>>
